@@ -6,8 +6,10 @@ cd /verif || exit 2
 mkdir -p .bin .work evidence replays
 (cd vinstr && go build -o /verif/.bin/vinstr .) || exit 2
 rc=0
-for d in mc/props/c*; do
+for d in mc/props/c[0-9][0-9]; do
   id=$(basename $d | tr 'a-z' 'A-Z')
   ./check $id --build-only || rc=2
 done
+# race-enabled build of the free-running complement of C14 (needs cgo; skipped by the check if impossible)
+(cd mc && CGO_ENABLED=1 go build -race -o /verif/.work/c14race-warm ./c14race >/dev/null 2>&1; rm -f /verif/.work/c14race-warm) || true
 exit $rc
